@@ -342,19 +342,23 @@ func c01NewMeta(c *core.Ctx, r *core.Report) {
 				r.Hold("C01.R9", cons, c.Pos(ci.Pos()), "CreateProxy builds the definition of a substituted version")
 				continue
 			}
-			// must be a literal passed to a store-if-absent primitive
-			okLit := false
-			if par := fn.Parent(); par != nil {
+			// must be (a helper used only by) a literal passed to a store-if-absent primitive
+			okLit := withinRole(c, fn, func(g *ssa.Function) bool {
+				par := g.Parent()
+				if par == nil {
+					return false
+				}
 				for _, pc := range core.Calls(par) {
 					if lsf != nil && core.IsCallTo(pc.Common(), lsf) {
 						for _, a := range pc.Common().Args {
-							if core.ClosureOf(a) == fn {
-								okLit = true
+							if core.ClosureOf(a) == g {
+								return true
 							}
 						}
 					}
 				}
-			}
+				return false
+			}, 2)
 			r.Check(okLit, "C01.R9", cons, c.Pos(ci.Pos()), "a definition is built only inside the store-if-absent callback of the definition registry (one definition per name)")
 		}
 	}
